@@ -154,7 +154,11 @@ def run_case(kind, n, incs, exps, zsk, pol_kw, now=NOW, shuffle=False, desc=None
         hist[kind] = hist.get(kind, 0) + 1
         return
     req = lr_[1]
-    r = vlib.run_impl(validate_request, req, pol)
+    if len(cases) % 4 == 3:
+        with vlib.debug_logging():              # every fourth request is judged with debug logging on (the tools' --debug): same verdict
+            r = vlib.run_impl(validate_request, req, pol)
+    else:
+        r = vlib.run_impl(validate_request, req, pol)
     impl_accept = r[0] == "ok"
     srt = sorted(((b["exp"], b["inc"], b["id"]) for b in bundles))
     want = spec(now, pol, zsk, [(i, e) for (e, i, _) in srt])
